@@ -495,3 +495,52 @@ pub fn json_text(r: &mut Rng) -> String {
     }
     s
 }
+
+// ---------------------------------------------------------------------------------------------
+// where a `//` comment ends
+// ---------------------------------------------------------------------------------------------
+
+/// Candidate line terminators (name, text). Only `\n` (and the end of the input) ends a comment in the
+/// documented grammar ("// comments to end of line", `skip_ws_and_comments`, the pre-scan).
+pub const TERMINATORS: &[(&str, &str)] =
+    &[("lf", "\n"), ("crlf", "\r\n"), ("cr", "\r"), ("ff", "\u{c}"), ("vt", "\u{b}"), ("nel", "\u{85}"), ("ls", "\u{2028}"), ("ps", "\u{2029}")];
+
+/// `pre // body <T> payload \n post` with the two explicit spellings of its admissible readings:
+/// T ends the comment (`pre payload \n post`) or it does not (`pre \n post`). Whatever a parser and the
+/// pre-scan take T for, together they must read the text as one of the two. Covers all entry points
+/// (a JSON frame for parse_json, KQL / KML / META frames for the others).
+pub fn comment_terminator_case(r: &mut Rng, thorough: bool) -> (String, Vec<String>, String) {
+    let frames: &[(&str, &str, &str)] = &[
+        ("json", "[1, ", " 2]"),
+        ("json", "{a: [ ", " null ], }"),
+        ("meta", "DESCRIBE ACCESS WITH { a : [ ", " 1 ] }"),
+        ("kql", "FIND(?x) WHERE { ?x { a : [ ", " 1 ] } } LIMIT 5"),
+        ("kml", "CREATE CONCEPT ?h { SET ATTRIBUTES { a : [ ", " 1 ] } }"),
+        ("kml", "UPDATE :t SET FIELDS { a : [ ", " 1 ] }"),
+    ];
+    let (fam, pre, post) = *r.pick(frames);
+    let (tname, t) = *r.pick(TERMINATORS);
+    let body = *r.pick(&[" c", "", " \" (", " [[[[", " ]]]] }", " x // y", " é"]);
+    let nest = |d: usize| format!("{}{},", "[".repeat(d), "]".repeat(d));
+    let (pname, payload): (&str, String) = match r.below(if thorough { 12 } else { 10 }) {
+        0 | 1 => ("nest-3", nest(3)),
+        2 => ("nest-60", nest(60)),
+        3 | 4 => ("nest-100", nest(100)),
+        5 => ("scalar", "2 ,".to_string()),
+        6 => ("string", "\"s\" ,".to_string()),
+        7 => ("closers", "] ] ] }".to_string()),
+        8 => ("open-quote", "\" ".to_string()),
+        9 => ("nest-1000", nest(1000)),
+        // inside the length limit, far beyond any stack: only the pre-scan can stop a parser here
+        _ => ("nest-130000", "[".repeat(130_000)),
+    };
+    if r.chance(1, 12) {
+        // the comment is the last thing in the text: the end of the input terminates it
+        let x = format!("{pre}{post} //{body} {payload}");
+        return (x, vec![format!("{pre}{post}")], format!("cterm:{fam}:eof:{pname}"));
+    }
+    let x = format!("{pre}//{body}{t}{payload}\n{post}");
+    let live = format!("{pre} {payload}\n{post}");
+    let dead = format!("{pre}\n{post}");
+    (x, vec![live, dead], format!("cterm:{fam}:{tname}:{pname}"))
+}
